@@ -11,6 +11,7 @@ import (
 	"fmt"
 	"io/fs"
 	"log/slog"
+	"math"
 	"net/http"
 	"net/url"
 	"path"
@@ -140,7 +141,7 @@ func (s *Server) livesimHandlerFunc(w http.ResponseWriter, r *http.Request) {
 		}
 	case ".mp4", ".m4s", ".cmfv", ".cmfa", ".cmft", ".jpg", ".jpeg", ".m4v", ".m4a":
 		segmentPart := strings.TrimPrefix(contentPart, a.AssetPath) // includes heading slash
-		if ato := cfg.AvailabilityTimeOffsetS; !cfg.AvailabilityTimeCompleteFlag && !(ato >= 0 && ato*1000 < float64(a.SegmentDurMS)) {
+		if ato := cfg.AvailabilityTimeOffsetS; !cfg.AvailabilityTimeCompleteFlag && !(ato >= 0 && math.Round(ato*1000) < float64(a.SegmentDurMS)) {
 			http.Error(w, "chunked mode needs 0 <= ato < segment duration", http.StatusBadRequest)
 			return
 		}
